@@ -34,7 +34,7 @@ only the baseline UI failure, `demo.sh` exits 1 with the change and 0 without), 
 agent's `notes.md`, `meta.json`) and are part of the self-test catalogue of their property (`S-<id>`).
 
 **First runs: in rounds one and two 30 of 40 were reported by the check of their own property and 10 were not; in round three 7 of 40, in
-round four 6 of 40, in round five 14 of 40 and in round six 16 of 40 were not** (%d of %d in total; most of the round-five and round-six
+round four 6 of 40, in round five 14 of 40 and in round six 17 of 40 were not** (%d of %d in total; most of the round-five and round-six
 misses were slips in shared code - the sort a collector tags a variable with, a conversion impl, a printer's precedence or relation table,
 the order of the file arguments - that the check of *another* property already caught: the clause is now shared, i.e. the rule that decides
 it runs under every property it is a necessary condition of; five of the round-six changes were caught by no check at all: the default sort
